@@ -396,3 +396,20 @@ proof fn lemma_lookup_cases(z: TimeZoneRef, u: int, t: int)
         },
 {
 }
+
+// ASSUMED (language guarantee, not provable inside Verus, which only knows len <= usize::MAX): the size in bytes of a
+// slice never exceeds isize::MAX, hence for the non-zero-sized element types used here the length fits an isize.
+// Only used to show that index arithmetic such as `i + 1` cannot overflow whatever the loop shape.
+#[verifier::external_body]
+proof fn axiom_slice_len_transitions(s: &[Transition])
+    ensures
+        s@.len() <= isize::MAX,
+{
+}
+
+#[verifier::external_body]
+proof fn axiom_slice_len_leaps(s: &[LeapSecond])
+    ensures
+        s@.len() <= isize::MAX,
+{
+}
